@@ -208,7 +208,11 @@ class Model:
         if hasattr(self,'project_closures'):
             lp_vars_string += 'Project closure variables:\n'
             for var in self.project_closures:
-                if (var.varValue > 0.9):
+                # A closure variable that occurs in no constraint (project 
+                # with upper quota 0) is never given a value by the solver.
+                if var.varValue is None:
+                    lp_vars_string += '- '
+                elif (var.varValue > 0.9):
                     lp_vars_string += '1 '
                 else:
                     lp_vars_string += '0 '
